@@ -103,4 +103,208 @@ inductive UReach (s0 : U) : U → Prop where
   | init : UReach s0 s0
   | step {s s' : U} : UReach s0 s → UStep s s' → UReach s0 s'
 
+
+/-! ### Part G: the documented parent protocol against an arbitrary child program
+
+  The child is a PROGRAM: a list of actions, then `exit(code)`.
+  * `readIn n`: one `read(0, buf, n)`: blocks while the stdin pipe is empty and the parent still holds the write
+    end; takes between 1 and `n` of the queued bytes; at end-of-file takes nothing and completes; `n = 0` or a
+    closed / not redirected stdin: completes at once.
+  * `readAll`: `while (read(0, ...) > 0);`: consumes until end-of-file is observed.
+  * `writeOut d` / `writeErr d`: blocking write loop, partial transfers of at least one byte that fit; the head of
+    `prog` is rewritten to the rest of the data; to a stream that is closed or not redirected: completes at once
+    (the data goes elsewhere / EBADF); to a pipe whose read end is gone: SIGPIPE.
+  * `closeIn` / `closeOut` / `closeErr`: close descriptor 0 / 1 / 2 (closing twice does nothing).
+  The parent is the documented protocol (harness `opIo` with the API as coded): `Process::write` repeatedly until
+  the payload is taken (blocks while the pipe is full; if the child's read end is gone, or stdin is not redirected,
+  the write fails and the parent stops writing), `close(stdinStream)`, then `Process::read(buf, len, streams)` on
+  stdout/stderr until both reported end-of-file (a stream that is not redirected counts as ended), then `join`
+  (waitpid: enabled when the child has exited).  The pipe state with its history variables is the state `U` of the
+  unconstrained system, so that every step is a step of `U` (or leaves the pipes as they are). -/
+
+inductive CAct where
+  | readIn (n : Nat)
+  | readAll
+  | writeOut (d : List Nat)
+  | writeErr (d : List Nat)
+  | closeIn
+  | closeOut
+  | closeErr
+  deriving Repr, DecidableEq
+
+structure G where
+  u : U
+  pPhase : Kernel.PPhase
+  toSend : List Nat          -- the part of the payload not yet taken by a write
+  stopped : Bool             -- a `Process::write` failed: the parent stops writing
+  prog : List CAct           -- what is left of the child's program; the head is the action in execution
+  code : Nat                 -- the exit code of the child's program
+
+def G.init (cap mask : Nat) (P : List Nat) (prog : List CAct) (code : Nat) : G :=
+  { u := U.init cap mask, pPhase := .writing, toSend := P, stopped := false, prog := prog, code := code }
+
+inductive GStep : G → G → Prop where
+  -- parent, phase writing
+  | pWrite (s : G) (k : Nat) : s.pPhase = .writing → s.stopped = false → s.u.pInW = true → s.u.cInR = true →
+      0 < k → k ≤ s.toSend.length → s.u.inQ.length + k ≤ s.u.cap →
+      GStep s { s with u := { s.u with inQ := s.u.inQ ++ s.toSend.take k, sentIn := s.u.sentIn ++ s.toSend.take k },
+                       toSend := s.toSend.drop k }
+  | pWriteFail (s : G) : s.pPhase = .writing → s.stopped = false → s.toSend ≠ [] → s.u.pInW = true → s.u.cInR = false →
+      GStep s { s with u := { s.u with inBroken := true }, stopped := true }
+  | pWriteNoPipe (s : G) : s.pPhase = .writing → s.stopped = false → s.toSend ≠ [] → s.u.pInW = false →
+      GStep s { s with stopped := true }
+  | pClose (s : G) : s.pPhase = .writing → (s.toSend = [] ∨ s.stopped = true) →
+      GStep s { s with u := { s.u with pInW := false }, pPhase := .draining }
+  -- parent, phase draining
+  | pReadOut (s : G) (k : Nat) : s.pPhase = .draining → s.u.pOutR = true → 0 < k → k ≤ s.u.outQ.length →
+      GStep s { s with u := { s.u with gotOut := s.u.gotOut ++ s.u.outQ.take k, outQ := s.u.outQ.drop k } }
+  | pEofOut (s : G) : s.pPhase = .draining → s.u.pOutR = true → s.u.outEof = false → s.u.outQ = [] → s.u.cOutW = false →
+      GStep s { s with u := { s.u with outEof := true } }
+  | pReadErr (s : G) (k : Nat) : s.pPhase = .draining → s.u.pErrR = true → 0 < k → k ≤ s.u.errQ.length →
+      GStep s { s with u := { s.u with gotErr := s.u.gotErr ++ s.u.errQ.take k, errQ := s.u.errQ.drop k } }
+  | pEofErr (s : G) : s.pPhase = .draining → s.u.pErrR = true → s.u.errEof = false → s.u.errQ = [] → s.u.cErrW = false →
+      GStep s { s with u := { s.u with errEof := true } }
+  | pJoin (s : G) (c : Nat) : s.pPhase = .draining → (s.u.outEof = true ∨ s.u.pOutR = false) →
+      (s.u.errEof = true ∨ s.u.pErrR = false) → s.u.child = .exited c → s.u.reaped = none →
+      GStep s { s with u := { s.u with reaped := some c }, pPhase := .joined }
+  -- child: stdin
+  | cReadIn (s : G) (n : Nat) (r : List CAct) (k : Nat) : s.u.child = .running → s.prog = .readIn n :: r → s.u.cInR = true →
+      0 < k → k ≤ n → k ≤ s.u.inQ.length →
+      GStep s { s with u := { s.u with gotIn := s.u.gotIn ++ s.u.inQ.take k, inQ := s.u.inQ.drop k }, prog := r }
+  | cReadInEof (s : G) (n : Nat) (r : List CAct) : s.u.child = .running → s.prog = .readIn n :: r → s.u.cInR = true →
+      0 < n → s.u.inQ = [] → s.u.pInW = false →
+      GStep s { s with u := { s.u with inEof := true }, prog := r }
+  | cReadInSkip (s : G) (n : Nat) (r : List CAct) : s.u.child = .running → s.prog = .readIn n :: r →
+      (s.u.cInR = false ∨ n = 0) → GStep s { s with prog := r }
+  | cReadAll (s : G) (r : List CAct) (k : Nat) : s.u.child = .running → s.prog = .readAll :: r → s.u.cInR = true →
+      0 < k → k ≤ s.u.inQ.length →
+      GStep s { s with u := { s.u with gotIn := s.u.gotIn ++ s.u.inQ.take k, inQ := s.u.inQ.drop k } }
+  | cReadAllEof (s : G) (r : List CAct) : s.u.child = .running → s.prog = .readAll :: r → s.u.cInR = true →
+      s.u.inQ = [] → s.u.pInW = false →
+      GStep s { s with u := { s.u with inEof := true }, prog := r }
+  | cReadAllSkip (s : G) (r : List CAct) : s.u.child = .running → s.prog = .readAll :: r → s.u.cInR = false →
+      GStep s { s with prog := r }
+  -- child: stdout
+  | cWriteOut (s : G) (d : List Nat) (r : List CAct) (k : Nat) : s.u.child = .running → s.prog = .writeOut d :: r →
+      s.u.cOutW = true → s.u.pOutR = true → 0 < k → k ≤ d.length → s.u.outQ.length + k ≤ s.u.cap →
+      GStep s { s with u := { s.u with outQ := s.u.outQ ++ d.take k, sentOut := s.u.sentOut ++ d.take k },
+                       prog := .writeOut (d.drop k) :: r }
+  | cWriteOutDone (s : G) (r : List CAct) : s.u.child = .running → s.prog = .writeOut [] :: r → GStep s { s with prog := r }
+  | cWriteOutSkip (s : G) (d : List Nat) (r : List CAct) : s.u.child = .running → s.prog = .writeOut d :: r →
+      s.u.cOutW = false → GStep s { s with prog := r }
+  | cSigOut (s : G) (d : List Nat) (r : List CAct) : s.u.child = .running → s.prog = .writeOut d :: r → d ≠ [] →
+      s.u.cOutW = true → s.u.pOutR = false →
+      GStep s { s with u := { s.u with child := .signalled, cInR := false, cOutW := false, cErrW := false } }
+  -- child: stderr
+  | cWriteErr (s : G) (d : List Nat) (r : List CAct) (k : Nat) : s.u.child = .running → s.prog = .writeErr d :: r →
+      s.u.cErrW = true → s.u.pErrR = true → 0 < k → k ≤ d.length → s.u.errQ.length + k ≤ s.u.cap →
+      GStep s { s with u := { s.u with errQ := s.u.errQ ++ d.take k, sentErr := s.u.sentErr ++ d.take k },
+                       prog := .writeErr (d.drop k) :: r }
+  | cWriteErrDone (s : G) (r : List CAct) : s.u.child = .running → s.prog = .writeErr [] :: r → GStep s { s with prog := r }
+  | cWriteErrSkip (s : G) (d : List Nat) (r : List CAct) : s.u.child = .running → s.prog = .writeErr d :: r →
+      s.u.cErrW = false → GStep s { s with prog := r }
+  | cSigErr (s : G) (d : List Nat) (r : List CAct) : s.u.child = .running → s.prog = .writeErr d :: r → d ≠ [] →
+      s.u.cErrW = true → s.u.pErrR = false →
+      GStep s { s with u := { s.u with child := .signalled, cInR := false, cOutW := false, cErrW := false } }
+  -- child: close, exit
+  | cCloseIn (s : G) (r : List CAct) : s.u.child = .running → s.prog = .closeIn :: r →
+      GStep s { s with u := { s.u with cInR := false }, prog := r }
+  | cCloseOut (s : G) (r : List CAct) : s.u.child = .running → s.prog = .closeOut :: r →
+      GStep s { s with u := { s.u with cOutW := false }, prog := r }
+  | cCloseErr (s : G) (r : List CAct) : s.u.child = .running → s.prog = .closeErr :: r →
+      GStep s { s with u := { s.u with cErrW := false }, prog := r }
+  | cExit (s : G) : s.u.child = .running → s.prog = [] →
+      GStep s { s with u := { s.u with child := .exited s.code, cInR := false, cOutW := false, cErrW := false } }
+
+inductive GReach (s0 : G) : G → Prop where
+  | init : GReach s0 s0
+  | step {s s' : G} : GReach s0 s → GStep s s' → GReach s0 s'
+
+/-- reachable in exactly `n` steps -/
+inductive GReachN (s0 : G) : Nat → G → Prop where
+  | init : GReachN s0 0 s0
+  | step {n : Nat} {s s' : G} : GReachN s0 n s → GStep s s' → GReachN s0 (n + 1) s'
+
+/-- the child's "input phase": its program up to the first `readAll` / `closeIn` -/
+def inputPhase : List CAct → List CAct
+  | [] => []
+  | .readAll :: _ => []
+  | .closeIn :: _ => []
+  | .readIn n :: r => .readIn n :: inputPhase r
+  | .writeOut d :: r => .writeOut d :: inputPhase r
+  | .writeErr d :: r => .writeErr d :: inputPhase r
+  | .closeOut :: r => .closeOut :: inputPhase r
+  | .closeErr :: r => .closeErr :: inputPhase r
+
+/-- number of bytes a program writes to stdout / stderr -/
+def outBytes : List CAct → Nat
+  | [] => 0
+  | .writeOut d :: r => d.length + outBytes r
+  | .readAll :: r => outBytes r
+  | .closeIn :: r => outBytes r
+  | .readIn _ :: r => outBytes r
+  | .writeErr _ :: r => outBytes r
+  | .closeOut :: r => outBytes r
+  | .closeErr :: r => outBytes r
+
+def errBytes : List CAct → Nat
+  | [] => 0
+  | .writeErr d :: r => d.length + errBytes r
+  | .readAll :: r => errBytes r
+  | .closeIn :: r => errBytes r
+  | .readIn _ :: r => errBytes r
+  | .writeOut _ :: r => errBytes r
+  | .closeOut :: r => errBytes r
+  | .closeErr :: r => errBytes r
+
+/-- the bytes a program writes to stdout: the data of its `writeOut` actions, in order, up to the first `closeOut` -/
+def outData : List CAct → List Nat
+  | [] => []
+  | .closeOut :: _ => []
+  | .writeOut d :: r => d ++ outData r
+  | .readAll :: r => outData r
+  | .closeIn :: r => outData r
+  | .readIn _ :: r => outData r
+  | .writeErr _ :: r => outData r
+  | .closeErr :: r => outData r
+
+def errData : List CAct → List Nat
+  | [] => []
+  | .closeErr :: _ => []
+  | .writeErr d :: r => d ++ errData r
+  | .readAll :: r => errData r
+  | .closeIn :: r => errData r
+  | .readIn _ :: r => errData r
+  | .writeOut _ :: r => errData r
+  | .closeOut :: r => errData r
+
+/-- the program reads its stdin to end-of-file (`readAll`) before any `closeIn` -/
+def wantsAll : List CAct → Bool
+  | [] => false
+  | .readAll :: _ => true
+  | .closeIn :: _ => false
+  | .readIn _ :: r => wantsAll r
+  | .writeOut _ :: r => wantsAll r
+  | .writeErr _ :: r => wantsAll r
+  | .closeOut :: r => wantsAll r
+  | .closeErr :: r => wantsAll r
+
+def actCost : CAct → Nat
+  | .writeOut d => 2 * d.length + 1
+  | .writeErr d => 2 * d.length + 1
+  | _ => 1
+
+def progCost : List CAct → Nat
+  | [] => 0
+  | a :: r => actCost a + progCost r
+
+def childRank : Child → Nat
+  | .running => 1
+  | _ => 0
+
+/-- every step decreases this -/
+def G.measure (s : G) : Nat :=
+  2 * s.toSend.length + s.u.inQ.length + s.u.outQ.length + s.u.errQ.length + progCost s.prog +
+    Kernel.pRank s.pPhase + Kernel.b2n s.stopped + Kernel.b2n s.u.outEof + Kernel.b2n s.u.errEof + childRank s.u.child
+
 end Nstd.Args.Pipes
